@@ -760,6 +760,31 @@ func SpecMatch(pattern string, hasWild bool, s string) bool {
 //@   trusted
 //@   assigns nothing
 
+// --- cache start / stop (C20) ---
+
+// Start: a started cache refuses; otherwise every start begins with a new, empty cache index
+// (nothing cached before a Stop can be served after a restart), subscribes to the system events,
+// and is marked started only when that subscription succeeded.
+//@ func (*Cache).Start
+//@   requires c != nil && c.mq != nil
+//@   ensures[C20] old(c.started) ==> result != nil && c.eventSubs == old(c.eventSubs) && c.started
+//@   ensures[C20] !old(c.started) ==> fresh(c.eventSubs) && card(c.eventSubs) == 0
+//@   ensures[C20] !old(c.started) ==> c.started == (result == nil)
+//@   assert[C14,C20] c.mq.Subscribe#1: arg0 == "system" && !c.started && fresh(c.eventSubs)
+//@   safety[C15]
+//@   loop 1 invariant fresh(c.eventSubs)
+//@   loop 1 invariant card(c.eventSubs) == 0
+//@   loop 1 invariant !c.started && c.mq != nil
+
+// Stop: idempotent; a stopped cache holds no system subscription and may be started again.
+//@ func (*Cache).Stop
+//@   requires c != nil
+//@   assumes c.started ==> c.unsubQueue != nil
+//@   ensures[C20] !c.started && (old(c.started) ==> c.resetSub == nil)
+//@   ensures[C20] !old(c.started) ==> c.resetSub == old(c.resetSub) && c.eventSubs == old(c.eventSubs)
+//@   assigns c.resetSub, c.started
+//@   safety[C15]
+
 // The token-reset fan-out set: a connection is a member from AddConn until RemoveConn.
 //@ func (*Cache).AddConn
 //@   requires c != nil && c.conns != nil && conn != nil
